@@ -172,14 +172,19 @@ var deviations = []deviation{
 		if !has16(of.Versions, 0x0304) {
 			return "", false
 		}
+		var shared []uint16
 		for _, g := range of.Shares {
 			if g == 23 || g == 24 || g == 25 || g == 29 {
-				cfg.Byz.HRRGroup = refsrv.CurveID(g)
-				cfg.Byz.HRRAlways = true
-				return fmt.Sprint(g), true
+				shared = append(shared, g)
 			}
 		}
-		return "", false
+		if len(shared) == 0 {
+			return "", false
+		}
+		g := shared[ch.Pick(len(shared), "shared-idx")] // any of the shares, not only the first
+		cfg.Byz.HRRGroup = refsrv.CurveID(g)
+		cfg.Byz.HRRAlways = true
+		return fmt.Sprint(g), true
 	}},
 	{"alpn-unoffered", func(of *Offer, h *wire.ClientHello, cfg *refsrv.Config, ccfg *tls.Config, ch *simrt.Chooser) (string, bool) {
 		cfg.Byz.ForceALPN = "zz-unoffered"
